@@ -3,10 +3,10 @@ NEXT Next
 CONSTANTS
   Preset = "auto"
   K = {0, 1}
-  MaxRows = 4
-  MaxVal = 7
+  MaxRows = 3
+  MaxVal = 6
   Modes2 = {"plain", "ignore", "replace", "odku"}
-  MaxId = 7
+  MaxId = 6
 VIEW View
 CONSTRAINT Bounded
 INVARIANTS InvPKUnique InvUniqueIdx InvNotNull InvChecks InvGenerated InvAutoCovers
